@@ -58,6 +58,8 @@ type decideSpec struct {
 	loopBody bool
 	// with loopBody: the range loop over this expression (printed) instead of the first loop
 	loopOver string
+	// … and not the first such loop but the one after this many of them
+	loopSkip int
 }
 
 type decideTr struct {
@@ -609,6 +611,7 @@ func translateDecide(src string, spec *decideSpec) (string, error) {
 		list, fall := fd.Body.List, ""
 		if spec.loopBody {
 			list = nil
+			skipped := 0
 			// the first loop of the function, wherever it is nested
 			ast.Inspect(fd.Body, func(n ast.Node) bool {
 				if list != nil {
@@ -621,7 +624,11 @@ func translateDecide(src string, spec *decideSpec) (string, error) {
 					}
 				case *ast.RangeStmt:
 					if spec.loopOver == "" || (&decideTr{fset: fset}).text(f.X) == spec.loopOver {
-						list, fall = f.Body.List, "[]"
+						if skipped < spec.loopSkip {
+							skipped++
+						} else {
+							list, fall = f.Body.List, "[]"
+						}
 					}
 				case *ast.FuncLit:
 					return false
